@@ -54,6 +54,7 @@ static int roundtrip(uint8_t *const *values, int expect_fit)
         /* scramble, then write the payload back */
         for (int i = 0; i < nv; i++) {
                 uint8_t junk[64];
+                if (vdef[i].access == CAT_VAR_ACCESS_READ_ONLY) continue;      /* never written back: keeps its value */
                 for (int k = 0; k < vdef[i].size; k++) junk[k] = (uint8_t)(values[i][k] ^ 0x5a);
                 if (vdef[i].type == CAT_VAR_BUF_STRING) { for (int k = 0; k < vdef[i].size; k++) junk[k] = (uint8_t)('z' - (k & 7)); junk[vdef[i].size - 1] = 0; }
                 w_set_var(0, i, junk);
@@ -206,16 +207,19 @@ static int mixes(int shard, int nshards)
                 {{0, 0}, {0xff, 0xff}, {0x39, 0x30}},
                 {{0}, {0xff}, {0x0a}},
                 {{0, 0, 0}, {0xff, 0x80, 0x7f}, {0x12, 0xab, 0xcd}},
-                {{0}, {'"', '\\', '\n', ',', 'x', 0}, {'a', ',', 'b', 0}}};
+                {{'C', ':', '\\', 0}, {'"', '\\', '\n', ',', 'x', 0}, {'a', ',', ' ', '\\', 0}}};
         int idx = 0;
         for (int a = 0; a < 5; a++) for (int b = 0; b < 5; b++) for (int c = 0; c < 5; c++, idx++) {
                 if (idx % nshards != shard) continue;
-                struct wvar vars[3] = {mkvar(T[a], SZ[a]), mkvar(T[b], SZ[b]), mkvar(T[c], SZ[c])};
                 int ty[3] = {a, b, c};
-                for (int combo = 0; combo < 27; combo++) {
+                for (int combo = 0; combo < 27 * 4; combo++) {
+                        /* access pattern: all read-write, or one of the three positions read-only */
+                        struct wvar vars[3] = {mkvar(T[a], SZ[a]), mkvar(T[b], SZ[b]), mkvar(T[c], SZ[c])};
+                        int ro = combo / 27 - 1;
+                        if (ro >= 0) vars[ro].access = CAT_VAR_ACCESS_READ_ONLY;
                         uint8_t vb[3][8];
                         uint8_t *vals[3] = {vb[0], vb[1], vb[2]};
-                        int k = combo;
+                        int k = combo % 27;
                         for (int i = 0; i < 3; i++) { memcpy(vb[i], VAL[ty[i]][k % 3], 8); k /= 3; }
                         /* generous capacity first, to learn the text length */
                         build(3, vars, 120);
